@@ -415,6 +415,9 @@ func (f *frame) builtin(st *State, x *ssa.Call, b *ssa.Builtin, args []Value) Va
 		r.Lo = 0
 		return r.normalize()
 	case "append":
+		if r := f.appendExactInPlace(st, x, args); r != nil {
+			return r
+		}
 		f.appendInPlace(st, x, args)
 		if r := f.appendSmall(st, x, args); r != nil {
 			return r
@@ -518,7 +521,53 @@ func (f *frame) appendSmall(st *State, x *ssa.Call, args []Value) Value {
 	}
 	ln := NewConstInt(64, true, total)
 	ln.IsLen = o
-	return &Slice{Obj: o, Path: "", Off: NewConstInt(64, true, 0), Len: ln, Elem: elem}
+	return &Slice{Obj: o, Path: "", Off: NewConstInt(64, true, 0), Len: ln, Elem: elem, CapKnown: true, Cap: total}
+}
+
+// appendExactInPlace models append when the first operand has a known constant capacity that the result fits
+// into: the new elements are stored behind the slice in the SAME backing storage and the result shares it, so
+// two appends to one short slice overwrite each other exactly as in Go.
+func (f *frame) appendExactInPlace(st *State, x *ssa.Call, args []Value) Value {
+	it := f.it
+	if len(args) != 2 {
+		return nil
+	}
+	s, ok := args[0].(*Slice)
+	if !ok || s.Obj == nil || !s.CapKnown {
+		return nil
+	}
+	off, ok1 := s.Off.Const()
+	ln, ok2 := s.Len.Const()
+	if !ok1 || !ok2 {
+		return nil
+	}
+	var vals []Value
+	switch a := args[1].(type) {
+	case *NilV:
+	case *Slice:
+		n, isc := a.Len.Const()
+		aoff, okA := a.Off.Const()
+		if !isc || !okA || n < 0 || n > 64 {
+			return nil
+		}
+		for i := int64(0); i < n; i++ {
+			vals = append(vals, st.LoadPtr(&Ptr{Obj: a.Obj, Path: fmt.Sprintf("%s[%d]", a.Path, aoff+i), Elem: a.Elem}))
+		}
+	default:
+		return nil
+	}
+	if ln+int64(len(vals)) > s.Cap {
+		return nil // does not fit: append allocates (appendSmall)
+	}
+	for i, v := range vals {
+		p := &Ptr{Obj: s.Obj, Path: fmt.Sprintf("%s[%d]", s.Path, off+ln+int64(i)), Elem: s.Elem}
+		keys, strong := st.StorePtr(p, v)
+		if it.Hooks.Store != nil {
+			it.Hooks.Store(st, x, p, keys, v, strong)
+		}
+	}
+	nl := NewConstInt(64, true, ln+int64(len(vals)))
+	return &Slice{Obj: s.Obj, Path: s.Path, Off: s.Off, Len: nl, Elem: s.Elem, CapKnown: true, Cap: s.Cap}
 }
 
 // appendInPlace accounts for append re-using the backing array of its first operand when that
